@@ -3,7 +3,7 @@
 
    input : ( cfg steps )
      cfg  = ( backoff body n<OnRetry set> (opt x<initial Last-Event-ID header>) (opt z<patience>) n<cancelled before>
-              n<other connections> ( n<RoundTrip us> n<body end us> ) )
+              n<other connections> ( n<RoundTrip us> n<body end us> ) n<context kind> )
        backoff as in the family "backoff"; body = ( n<kind> n<after> n<e> ) with kind 0 = no body,
        1 = http.NoBody, 2 = body without GetBody, 3 = body with GetBody, 4 = GetBody fails with error e
        after [after] successful calls; patience: the context is cancelled inside OnRetry when the wait is
@@ -13,9 +13,18 @@
        other connections: how many Connections the same Client produced before this one (NewConnection normalises
        the Client's configuration in place; the configuration a Connection runs with does not depend on how often);
        the last pair: how long the scripted RoundTrip / the end of a scripted body take (harness only: the model has
-       no clock, the waits it grants do not depend on how long an attempt took)
+       no clock, the waits it grants do not depend on how long an attempt took);
+       context kind (harness only): how the request context was built and is ended - WithCancel; WithCancelCause ended
+       with a cause of its own; a WithCancel / WithValue / WithTimeoutCause child of such a context; a deadline (with a
+       cause) that expires at the scripted instant or has passed before Connect.  Model and oracle do not look at it:
+       "the context's error" (n1) is request.Context().Err() whatever the kind, and the harness projects a returned
+       error to (n1) only if it is that very value - a cause, or an error that merely matches context.Canceled /
+       context.DeadlineExceeded while the context is alive, is not the context's error
      n<e>: the index of an injected error VALUE.  The harness gives the value a character by e / 1000 (plain; Temporary();
-       Timeout(); wrapping io.EOF, io.ErrUnexpectedEOF, os.ErrDeadlineExceeded; *net.OpError around a wrapped io.EOF) and
+       Timeout(); wrapping io.EOF, io.ErrUnexpectedEOF, os.ErrDeadlineExceeded; *net.OpError around a wrapped io.EOF;
+       *net.OpError{dial} around ECONNREFUSED, *net.OpError{read} around ECONNRESET, these inside a *url.Error, *net.DNSError
+       alone and inside a dial error; context.DeadlineExceeded / context.Canceled themselves, wrapped, or matched through an
+       Is method, alone and inside a dial error - all while the request context is alive) and
        projects what it observes by identity; model and oracle take e as opaque: the properties say what happens to an
        error by where it arose (transport, validator, reader, GetBody), never by what it looks like
      step = ( n0 n<e> )                     Do fails with injected error e
